@@ -31,6 +31,7 @@ func HarnessC01PrevNext() {
 	} else {
 		NewPageNumberFinder(stringutil.SelectWordCounter("plain english text"), nil, nil).FindPagination(doc, pageURL)
 	}
+	vx.Assert(true, "end of the harness reached (this harness only looks for panics; the assertion exists for the canary run)")
 }
 
 // HarnessC01Folding: hosts that collide under Unicode case folding (concrete).
@@ -45,4 +46,5 @@ func HarnessC01Folding() {
 	vx.Cover("run")
 	NewPrevNextFinder(nil).FindPagination(doc, pageURL)
 	NewPageNumberFinder(stringutil.SelectWordCounter("plain english text"), nil, nil).FindPagination(doc, pageURL)
+	vx.Assert(true, "end of the harness reached (this harness only looks for panics; the assertion exists for the canary run)")
 }
